@@ -1158,7 +1158,7 @@ class Desugar:
         for st in cls.body:
             if isinstance(st, ast.Assign) and len(st.targets) == 1 and isinstance(st.targets[0], ast.Name):
                 v = st.value
-                if isinstance(v, (ast.Tuple, ast.List)) and v.elts and all(isinstance(e, ast.Constant) for e in v.elts):
+                if isinstance(v, (ast.Tuple, ast.List)) and v.elts and all(isinstance(e, ast.Constant) or (isinstance(e, ast.UnaryOp) and isinstance(e.op, (ast.USub, ast.UAdd)) and isinstance(e.operand, ast.Constant)) for e in v.elts):
                     consts[st.targets[0].id] = v
         for k in list(consts):
             if k in assigned_on_self or not k.isupper() and not k.startswith("_"):
@@ -1690,10 +1690,15 @@ class Desugar:
                 else:
                     return None
                 for tt, vv in pairs:
-                    if tt.id in out or not (_is_simple(vv) and isinstance(vv, (ast.Name, ast.Attribute))) or isinstance(vv, ast.Name) and vv.id in ("None", "True", "False"):
+                    if tt.id in out or not _is_simple(vv):
                         return None
                     out[tt.id] = vv
             return out
+
+        def is_ref(v):
+            if isinstance(v, ast.IfExp):
+                return is_ref(v.body) and is_ref(v.orelse)
+            return isinstance(v, (ast.Name, ast.Attribute)) and not (isinstance(v, ast.Name) and v.id in ("None", "True", "False"))
 
         def chain(node):
             """{name: conditional expression} for an if / elif / else that only binds references"""
@@ -1722,15 +1727,23 @@ class Desugar:
             else:
                 break
         tested = {x.id for t in tests for x in ast.walk(t) if isinstance(x, ast.Name)}
+        chosen = {}
         for name in defs:
+            if not is_ref(defs[name]):
+                continue  # a constant / tuple chosen alongside the functions: stays bound by the if
             if name in _names_stored(others) or name in tested:
-                return None
+                continue
             if any(isinstance(x, ast.Name) and x.id == name for s in stmts[:i] for x in ast.walk(s)):
-                return None
+                continue
             uses = [x for s in rest for x in ast.walk(s) if isinstance(x, ast.Name) and x.id == name and isinstance(x.ctx, ast.Load)]
             callee_uses = {id(x.func) for s in rest for x in ast.walk(s) if isinstance(x, ast.Call) and isinstance(x.func, ast.Name) and x.func.id == name}
             if not uses or any(id(u) not in callee_uses for u in uses):
-                return None
+                continue
+            chosen[name] = defs[name]
+        if not chosen:
+            return None
+        kept = [n for n in defs if n not in chosen]
+        defs_all, defs = defs, chosen
         # the tests and the references must mean the same where the calls are: nothing they read is rebound
         stored_later = _names_stored(rest)
         read = {x.id for v in defs.values() for x in ast.walk(v) if isinstance(x, ast.Name)}
@@ -1746,7 +1759,13 @@ class Desugar:
             new_rest = self._expand_calls(new_rest, name, "ifexp", fake)
             if new_rest is None:
                 return None
-        return stmts[:i] + new_rest
+        head = []
+        if kept:
+            # the other names the branches bind stay where they were: name = A if c else B
+            for nm in kept:
+                a = ast.Assign(targets=[ast.Name(id=nm, ctx=ast.Store())], value=defs_all[nm])
+                head.append(ast.fix_missing_locations(ast.copy_location(a, st)))
+        return stmts[:i] + head + new_rest
 
     def _expand_local_table(self, stmts, i, name, table):
         """`t = {4: f, 2: g}` bound once and used only as `t[key]` / `t.get(key)` / `t.get(key, default)` later in
